@@ -109,6 +109,7 @@ func CheckFunc(P *Program, fn *ssa.Function, c *FuncContract) (rep *FuncReport) 
 			ex.obls = append(ex.obls, o)
 		}
 	}
+	ex.addFieldInputs(fn)
 	if len(fr.rets) == 0 {
 		return
 	}
@@ -149,6 +150,8 @@ func CheckFunc(P *Program, fn *ssa.Function, c *FuncContract) (rep *FuncReport) 
 	}
 	bindResults(post.vars, fn.Signature, res)
 	ex.frameOn = false
+	ex.obls = append(ex.obls, &Obligation{Name: ex.fnName(fn) + "#reach[return]", Kind: "reach", Detail: "a return is reachable under all assumed facts (vacuity guard)",
+		Goal: p.False(), PC: final.pc, NFacts: len(ex.facts), Func: ex.fnName(fn), Props: c.Props})
 	for i, e := range c.Ensures {
 		g := ex.evalBool(post, e)
 		label := e.Label
@@ -271,4 +274,30 @@ func CheckLemma(P *Program, l *Lemma, pkgPath string) *FuncReport {
 			Pos: fmt.Sprintf("%s:%d", relPath(P, e.File), e.Line)})
 	}
 	return rep
+}
+
+// addFieldInputs: for pointer parameters, the fields of the pointee in the pre-state become named inputs
+// (so that counterexamples show them).
+func (ex *Exec) addFieldInputs(fn *ssa.Function) {
+	for _, prm := range fn.Params {
+		pt, ok := prm.Type().Underlying().(*types.Pointer)
+		if !ok {
+			continue
+		}
+		sT, ok := derefStruct(pt.Elem())
+		if !ok || isHashType(pt.Elem()) || isAddrType(pt.Elem()) {
+			continue
+		}
+		base := ex.inputs["in:"+prm.Name()]
+		if base == nil {
+			continue
+		}
+		for i := 0; i < sT.NumFields(); i++ {
+			name := fieldRegion(pt.Elem(), sT, i)
+			if _, known := ex.regionSorts[name]; !known {
+				continue
+			}
+			ex.inputs["in:"+prm.Name()+"."+sT.Field(i).Name()] = ex.p.Select(ex.regionAt(name, 0), base)
+		}
+	}
 }
